@@ -131,7 +131,7 @@ def check_ast(ast, acc, case):
     acc.n += 1
     acc.validated += 1
     got, exp, before, after = P.compile_both(ast)
-    for route, res in (('fresh compiler', got), ('compiler that compiled other documents before', P.compile_reused(ast))):
+    for route, res in P.routes(ast, got):
         if res[0] != 'ok':
             acc.violation('compile-exception', case, 'Compiler.compile (%s) raised %s' % (route, res[1]))
             return
@@ -379,6 +379,8 @@ def run(ctx):
     ns = 16
     for fam in ('no-rules', 'rules', 'examples-shapes', 'pairs'):
         ctx.level('compiler shapes:' + fam, [A.job_shapes.job(__name__, fam, s, ns, ctx.quick) for s in range(ns)])
+    from .c17 import job_script_multi
+    ctx.level('generate_events script over several paths is one stream (ids continue)', [job_script_multi.job(f) for f in ([], ['--no-source'])])
     ctx.level('two sources drawn alternately: all interleavings of next()', [job_generators.job(i) for i in range(len(POOL))])
     acc = Acc()
     threads_level(acc)
